@@ -20,7 +20,7 @@ pub fn def() -> PropDef {
         thorough_cases: 120_000_000,
         rule: "case = one conversion call: from_slice/TryFrom (Fr,Fq) and from_hash on byte strings of every length 0..=70 (all-zero, all-0xFF, p-1, p, p+1, 2^256-1, k*p and k*(r-1) +-1 near 2^512, uniform), interpret on 64 bytes, from_str on digit strings up to 160 chars and strings with one foreign character injected, to_big_endian into buffers of length 0..=70, set_bit for indices 0..=300; non-trivial = length != 32, or value >= p before reduction, or a rejected input, or a bit index that changes the value / crosses r; distinct by (operation, input)",
         required: crate::runner::req(&[
-            "op:from_slice", "op:interpret", "op:from_hash", "op:from_str", "op:to_big_endian", "op:set_bit", "len:0", "len:1", "len:31", "len:32", "len:33",
+            "bytes:high-part-near-p", "op:from_slice", "op:interpret", "op:from_hash", "op:from_str", "op:to_big_endian", "op:set_bit", "len:0", "len:1", "len:31", "len:32", "len:33",
             "len:64", "len:65", "len:70", "bytes:reduced", "str:rejected", "str:accepted", "set_bit:overflow-r", "set_bit:index>=256", "hash:reduced", "buf:wrong-size",
         ]),
         enumerate: Some(enumerate),
@@ -42,7 +42,21 @@ pub fn conv_bytes(s: &mut Src, len: usize, m: Md) -> (Vec<u8>, &'static str) {
         o[len - n..].copy_from_slice(&b[b.len() - n..]);
         o
     };
-    match s.weighted(&[2, 2, 4, 4, 3, 6]) {
+    match s.weighted(&[2, 2, 4, 4, 3, 6, 4]) {
+        6 => {
+            // a near-modulus value in the HIGH part followed by an arbitrary tail: (x << 8t) + tail, x in {m-1, m, m+1, ...}
+            // (long division and Horner-style reducers pass through every prefix of the input)
+            let rm1 = zp::r() - 1u32;
+            let tbl = [p - 1u32, p.clone(), p + 1u32, rm1.clone(), &rm1 + 1u32, &rm1 - 1u32, p * 2u32, &zp::c().two256 - 1u32];
+            let x = tbl[s.choose(8)].clone();
+            let t = if s.bool() { 32 } else { s.choose(33) };
+            let tail = match s.choose(3) {
+                0 => BigUint::zero(),
+                1 => (BigUint::one() << (8 * t)) - 1u32,
+                _ => BigUint::from_bytes_be(&s.bytes(t)),
+            };
+            (fit(&((x << (8 * t)) + tail), len), "high-part-near-p")
+        }
         0 => (vec![0u8; len], "all-zero"),
         1 => (vec![0xFFu8; len], "all-ff"),
         2 => {
@@ -111,6 +125,23 @@ pub fn text(s: &mut Src) -> (String, bool, &'static str) {
         2 => 70 + s.choose(20), // around the 77/78-digit size of p
         _ => s.choose(161),
     };
+    if s.choose(5) == 0 {
+        // a digit string whose PREFIX is a near-multiple of a modulus, followed by further digits
+        let m = if s.bool() { zp::q() } else { zp::r() };
+        let k = match s.choose(3) {
+            0 => BigUint::from(1 + s.choose(9) as u32),
+            1 => BigUint::from(s.u64()),
+            _ => BigUint::from_bytes_be(&s.bytes(16)),
+        };
+        let v = k * m + BigUint::from(s.choose(10) as u32);
+        let mut t = v.to_str_radix(10);
+        let room = 160usize.saturating_sub(t.len());
+        let tail = s.choose(room + 1);
+        for _ in 0..tail {
+            t.push((b'0' + (s.u8() % 10)) as char);
+        }
+        return (t, true, "digits");
+    }
     let mut t = String::new();
     let lead_zeros = if s.choose(4) == 0 { s.choose(n + 1) } else { 0 };
     for i in 0..n {
@@ -388,7 +419,7 @@ fn enumerate(_t: crate::runner::Tier) -> Vec<Vec<u8>> {
     };
     let ch = |i: usize, n: usize| -> u8 { ((i * 256).div_ceil(n)) as u8 };
     let w_op = [8u32, 3, 4, 5, 2, 5];
-    let w_b = [2u32, 2, 4, 4, 3, 6];
+    let w_b = [2u32, 2, 4, 4, 3, 6, 4];
     // from_slice: field x len x {zero, ff, uniform}
     for field in 0..2u8 {
         for len in 0..=70usize {
